@@ -65,3 +65,36 @@ func VerifC20Registry() {
 	// open finding: NthValueFunction.Validate records n in the registered prototype (region: nth_value)
 	zzverif.AssertKF(same, "other-instance-result-unchanged-by-registry-use", "C20-nth-value-prototype-mutation", name == "nth_value")
 }
+
+// VerifC20ProgramCache: the process-wide compiled-program cache of the expression bridge is keyed so
+// that two DIFFERENT expression texts never share a program (instances with different queries do not
+// influence each other), for texts that differ in one arbitrary byte - letter case of a column name
+// or of a string literal included. The same text compiled again against the same row type may be
+// served from the cache.
+func VerifC20ProgramCache() {
+	form := zzverif.Param("form", 0)
+	b1 := zzverif.NondetBytes("b1", 1)
+	b2 := zzverif.NondetBytes("b2", 1)
+	isIdent := func(c byte) bool { return c >= 'a' && c <= 'z' || c >= 'A' && c <= 'Z' }
+	zzverif.Assume(isIdent(b1[0]) && isIdent(b2[0]))
+	var e1, e2 string
+	switch form {
+	case 0: // column name
+		e1, e2 = "upper(device"+b1+")", "upper(device"+b2+")"
+	case 1: // string literal
+		e1, e2 = "concat(name, '-"+b1+"-')", "concat(name, '-"+b2+"-')"
+	default: // function name spelling
+		e1, e2 = "ab"+b1+"(x) + 1", "ab"+b2+"(x) + 1"
+	}
+	bridge := NewExprBridge()
+	data := map[string]any{"x": 1}
+	p1, err1 := bridge.CompileExpressionWithStreamSQLFunctions(e1, data)
+	p2, err2 := bridge.CompileExpressionWithStreamSQLFunctions(e2, data)
+	p1again, err3 := bridge.CompileExpressionWithStreamSQLFunctions(e1, data)
+	zzverif.Assert(err1 == nil && err2 == nil && err3 == nil && p1 != nil && p2 != nil, "compile-succeeds")
+	zzverif.ObserveB("same-text", e1 == e2)
+	if e1 != e2 {
+		zzverif.Assert(p1 != p2, "different-expression-texts-never-share-a-compiled-program")
+		zzverif.Assert(p1again == p1, "a-text-keeps-its-own-program-after-another-text-was-compiled")
+	}
+}
